@@ -13,10 +13,12 @@ values.  This file only fixes the **conventions** of the Go API (package `numct`
 * byte strings are big-endian; `Int.Bytes` is sign-magnitude (`00`/`01` prefix), two's complement on
   `announced+1` bits rounded up to bytes;
 
-and gives the algorithms whose results are compared: `powMod` (square-and-multiply), `invMod`
-(extended Euclid), `isqrt`, `isQR`/`sqrtMod` (Euler criterion, Tonelli–Shanks), `jacobi` (the binary
-Kronecker algorithm of `nt/jacobi_purego.go`, with the *signed* reduction of a negative numerator),
-`crt2`, Miller–Rabin.  Everything is structural recursion on fuel so that `Props/C17.lean` can reason
+and gives the algorithms whose results are compared: `powMod` (square-and-multiply), `powModI` (signed
+exponent), `invMod` (extended Euclid), `gcdBin`/`lcmBin` (the binary gcd of `numct/internal/gcd.go` round by
+round, `numct.LCM`), `tdivFromAbs`/`edivFromAbs` (the magnitude-and-sign derivations of `numct.Int.Div` /
+`EuclideanDiv`), `ratFloor`/`ratCeil`, `symMod`, `isqrt`, `isQR`/`sqrtMod` (Euler criterion, Tonelli–Shanks),
+`jacobi`/`jacobiChecked` (the binary Kronecker algorithm of `nt/jacobi_purego.go`, with the *signed*
+reduction of a negative numerator, and its even-denominator guard), `crt2`, Miller–Rabin.  Everything is structural recursion on fuel so that `Props/C17.lean` can reason
 about the very definitions the driver executes.
 -/
 namespace BronVerif.BigNum
